@@ -262,6 +262,8 @@ def r17_6(ctx, layers):
             ok = True
             n = 0
             for lp in for_loops(f):
+                if lp.source != ("field", ("param", 1), "children", "regex_radix_tree::node::Node"):
+                    continue  # a nested loop over a child's result is inside the gated loop
                 n += 1
                 # loop is entered only on is_match == true
                 for p in s.paths(start=0, stops={lp.next_block}):
